@@ -38,8 +38,9 @@ def cases_for(pid, seed):
         from props import C06
         return C06.api_cases(seed, [])
     if pid == 'C07':
+        views = [{'kind': 'scalar-views', 'a': hx(v)} for v in [0, 1, 42, 2**64 - 1, 2**64, 2**128, 2**192, 2**255, 2**255 + 1, 7 * 2**64, 2**192 + 2**10, N - 1, N - 2, (N - 1) // 2, 0x0123456789abcdef << 64] + [rng.randrange(N) for _ in range(4)]]
         vals = [N - 1, N, N + 1, 2**256 - 1, 0, 1, 2**64, N - 2**64, N - (N % 2**64), 2**192 + 3]
-        return [{'kind': 'scalar-decode', 'a': hx(v), 'b': hx(pre)} for v in vals for pre in (5, N - 3)] + [{'kind': 'scalar-decode', 'a': 'aa' * n, 'b': hx(5)} for n in (0, 1, 31, 33, 64)] + [{'kind': 'scalar-decodehex', 'a': h, 'b': hx(5)} for h in ('', '0', '01', '0102', 'ab' * 31, 'ab' * 32, '00' * 32, 'ab' * 33, 'ff' * 32, hx(N - 1), hx(N), 'zz', '0' * 63, '1' * 65)]
+        return [{'kind': 'scalar-decode', 'a': hx(v), 'b': hx(pre)} for v in vals for pre in (5, N - 3)] + [{'kind': 'scalar-decode', 'a': 'aa' * n, 'b': hx(5)} for n in (0, 1, 31, 33, 64)] + [{'kind': 'scalar-decodehex', 'a': h, 'b': hx(5)} for h in ('', '0', '01', '0102', 'ab' * 31, 'ab' * 32, '00' * 32, 'ab' * 33, 'ff' * 32, hx(N - 1), hx(N), 'zz', '0' * 63, '1' * 65, '01' * 288, '00' * 288)] + [{'kind': 'scalar-decode', 'a': '01' * n, 'b': hx(5)} for n in (256, 288, 544)] + views + [{'kind': 'hidden-scalar', 'n': m} for m in (0, 8, 11, 14)]
     if pid == 'C13':
         vs = scalar_vals(rng)[:12] + [2**192 + 5, 5, N - 1 - 2**192]
         cs = [{'kind': 'lessorequal', 'a': hx(a), 'b': hx(b)} for a in vs for b in vs[::2]] + [{'kind': 'equal', 'a': hx(a), 'b': hx(b)} for a in vs[:8] for b in vs[:8]]
@@ -62,6 +63,8 @@ def cases_for(pid, seed):
                     cs.append({'kind': 'h2-layout', 'op': op, 'n': lay, 'a': rb(m), 'b': rb(d)})
         if pid == 'C09':
             cs.append({'kind': 'h2s-many', 'n': 1500})
+        else:
+            cs.append({'kind': 'h2c-many', 'n': 700})
         # consecutive calls first and with increasing DST lengths: recycled buffers / cached state are then at their tightest
         seqs = []
         for op in ops:
@@ -93,6 +96,25 @@ def cases_for(pid, seed):
         ks = [0, 2, 3, N - 1, 2**255, 2**64, (1 << 200) + 5, 0x5555555555555555555555555555555555555555555555555555555555555555 % N, N - 2, 6]
         return [{'kind': 'schedule', 'a': ','.join(hx(k) for k in ks)}]
     return []
+
+
+def length_cases(pid, failures, seed):
+    """(|msg|, |dst|) pairs named by failed obligations (tags contain mM.dD), replayed with seeded contents"""
+    import re
+    rng = _rng(seed, 78)
+    rb = lambda n: ''.join('%02x' % rng.getrandbits(8) for _ in range(n))
+    out, seen = [], set()
+    for f in failures:
+        mt = re.search(r'm(\d+)\.d(\d+)', str(f))
+        if mt and (mt.group(1), mt.group(2)) not in seen and len(seen) < 12:
+            seen.add((mt.group(1), mt.group(2)))
+            m, d = int(mt.group(1)), int(mt.group(2))
+            for _ in range(2):
+                if pid == 'C08':
+                    out += [{'kind': 'h2c', 'op': op, 'a': rb(m), 'b': rb(d)} for op in ('RO', 'NU')]
+                else:
+                    out.append({'kind': 'h2s', 'a': rb(m), 'b': rb(d)})
+    return out
 
 
 def first_oversize(pid, seed):
